@@ -1,3 +1,4 @@
 -- Property files of work group H (import UF.Props.Cxx lines go here).
 import UF.Driver.Ops.GroupH
 import UF.Props.C10
+import UF.Props.C18
